@@ -328,17 +328,22 @@ struct schema {
 	struct strpool arrs;	/* every cfg_opt_t array (as char* for uniform freeing) */
 	size_t *arrsz; int narrsz;
 	int poisoned;
+	cfg_opt_t *simple_opt[8]; int simple_slot[8]; int nsimple_opt;	/* CFG_SIMPLE_* declarations */
 };
 #define MAXSCHEMA 16
 static struct schema schemas[MAXSCHEMA];
 static int nschemas = 0;
 
-/* storage for CFG_SIMPLE_* options */
-static long simple_int[8];
-static double simple_float[8];
-static cfg_bool_t simple_bool[8];
-static char *simple_str[8];
+/* storage for CFG_SIMPLE_* options: the caller's variables.  Every context gets its own set
+ * (the declarations are re-pointed just before cfg_init), as a program that loads a saved
+ * configuration in another run would have. */
+#define MAXCTX 4
+static long simple_int[MAXCTX][8];
+static double simple_float[MAXCTX][8];
+static cfg_bool_t simple_bool[MAXCTX][8];
+static char *simple_str[MAXCTX][8];
 static int nsimple = 0;
+
 
 static void pool_add(struct strpool *p, char *s)
 {
@@ -382,6 +387,8 @@ static cfg_opt_t *read_opts(struct schema *S)
 {
 	int cap = 8, n = 0;
 	cfg_opt_t *arr = calloc(cap + 1, sizeof(cfg_opt_t));
+	int mine[8], nmine = 0, k;	/* CFG_SIMPLE_* entries of this array: (slot in S->simple_opt, index in arr) */
+	int mineidx[8];
 	while (pc < nlines) {
 		char *line = strdup(lines[pc++]);
 		char *t[16];
@@ -451,22 +458,24 @@ static cfg_opt_t *read_opts(struct schema *S)
 		} else if (strcmp(ty, "sec") == 0) {
 			o->type = CFGT_SEC;
 			o->subopts = read_opts(S);
-		} else if (strcmp(ty, "sint") == 0 && nsimple < 8) {
-			o->type = CFGT_INT;
-			o->simple_value.number = &simple_int[nsimple++];
-		} else if (strcmp(ty, "sfloat") == 0 && nsimple < 8) {
-			o->type = CFGT_FLOAT;
-			o->simple_value.fpnumber = &simple_float[nsimple++];
-		} else if (strcmp(ty, "sbool") == 0 && nsimple < 8) {
-			o->type = CFGT_BOOL;
-			o->simple_value.boolean = &simple_bool[nsimple++];
-		} else if (strcmp(ty, "sstr") == 0 && nsimple < 8) {
-			o->type = CFGT_STR;
-			o->simple_value.string = &simple_str[nsimple++];
+		} else if (ty[0] == 's' && nsimple < 8 && (!strcmp(ty, "sint") || !strcmp(ty, "sfloat") || !strcmp(ty, "sbool") || !strcmp(ty, "sstr"))) {
+			o->type = !strcmp(ty, "sint") ? CFGT_INT : !strcmp(ty, "sfloat") ? CFGT_FLOAT : !strcmp(ty, "sbool") ? CFGT_BOOL : CFGT_STR;
+			o->simple_value.ptr = (void **)&simple_int[0][nsimple];	/* re-pointed per context at init */
+			if (S->nsimple_opt < 8 && nmine < 8) {
+				/* arr may move (realloc): remember the index, resolved when the array is complete */
+				mine[nmine] = S->nsimple_opt;
+				mineidx[nmine++] = n - 1;
+				S->simple_opt[S->nsimple_opt] = NULL;
+				S->simple_slot[S->nsimple_opt] = nsimple;
+				S->nsimple_opt++;
+			}
+			nsimple++;
 		} else
 			die("bad option type %s", ty);
 		free(line);
 	}
+	for (k = 0; k < nmine; k++)
+		S->simple_opt[mine[k]] = &arr[mineidx[k]];
 	memset(&arr[n], 0, sizeof(cfg_opt_t));	/* CFG_END */
 	pool_add(&S->arrs, (char *)arr);
 	S->arrsz = realloc(S->arrsz, (S->narrsz + 1) * sizeof(size_t));
@@ -510,7 +519,6 @@ static struct schema *find_schema(const char *name)
 }
 
 /* ---------- contexts ---------- */
-#define MAXCTX 4
 static cfg_t *ctx[MAXCTX];
 static int ctx_errfn[MAXCTX];
 
@@ -787,6 +795,20 @@ static void rm_rf(const char *path)
 	if (system(cmd) != 0) { /* ignore */ }
 }
 
+/* the caller owns what a CFG_SIMPLE_STR variable points to (allocated by the library) */
+static void simple_release(int ci)
+{
+	int k;
+	for (k = 0; k < 8; k++) {
+		if (simple_str[ci][k]) {
+			free(simple_str[ci][k]);
+			vf_live_blocks--;
+		}
+		simple_str[ci][k] = NULL;
+		simple_int[ci][k] = 0; simple_float[ci][k] = 0; simple_bool[ci][k] = 0;
+	}
+}
+
 static void reset_all(void)
 {
 	int i;
@@ -800,10 +822,8 @@ static void reset_all(void)
 		schema_release(&schemas[i], 0);
 	nschemas = 0;
 	nsimple = 0;
-	for (i = 0; i < 8; i++) {
-		simple_int[i] = 0; simple_float[i] = 0; simple_bool[i] = 0;
-		simple_str[i] = NULL;	/* owned by the library's allocator; released with the context */
-	}
+	for (i = 0; i < MAXCTX; i++)
+		simple_release(i);
 	for (i = 0; i < nallptrs; i++)
 		free(allptrs[i]);
 	nallptrs = 0;
@@ -990,6 +1010,19 @@ int main(int argc, char **argv)
 				die("unknown/poisoned schema %s", t[2]);
 			if (ctx[ci])
 				die("context in use");
+			{
+				int k;
+				for (k = 0; k < S->nsimple_opt; k++) {
+					cfg_opt_t *so = S->simple_opt[k];
+					int sl = S->simple_slot[k];
+					switch (so->type) {
+					case CFGT_INT: so->simple_value.number = &simple_int[ci][sl]; break;
+					case CFGT_FLOAT: so->simple_value.fpnumber = &simple_float[ci][sl]; break;
+					case CFGT_BOOL: so->simple_value.boolean = &simple_bool[ci][sl]; break;
+					default: so->simple_value.string = &simple_str[ci][sl]; break;
+					}
+				}
+			}
 			ctx[ci] = cfg_init(S->opts, flags);
 			if (ctx[ci] && !noerr)
 				cfg_set_error_function(ctx[ci], errfunc);
@@ -1001,6 +1034,7 @@ int main(int argc, char **argv)
 			int ci = ctx_index(ARG(1));
 			int r = cfg_free(ctx[ci]);
 			ctx[ci] = NULL;
+			simple_release(ci);
 			emit_int("free", r);
 		} else if (strcmp(t[0], "parsebuf") == 0) {
 			cfg_t *c = resolve_ctx(ARG(1));
